@@ -1,13 +1,23 @@
 /-
-  C18 — the acceptance rule for the GENERATED table of in-place sites (Gen/InplaceSites.lean) and the
-  explicit allow-list of the sites whose target is not locally allocated.
+  C18 — the acceptance rule for the GENERATED table of in-place sites (Gen/InplaceSites.lean).
 
-  A site of the library is accepted when the slice of its function obeys the write discipline
-  (`writesOnlyFresh`: on every path the written object was allocated by cola itself — classes `fresh`,
-  and `view-of` / `loop-carried` / `matmul-result` chains that end in `fresh` only), or when it is on
-  the allow-list below WITH THE REASON why the write cannot reach a value the caller owns.  Entries are
-  keyed by (file, function, written expression — for attribute stores including the attribute name): a new site, or an existing site whose target changes
-  class (`Y = X` instead of `Y = zeros(...)`, `b *= mult`, ...), is not covered and `C18_sites` fails.
+  A site of the library is accepted when
+  * the slice of its function obeys the write discipline (`writesOnlyFresh`: on every path the written
+    object was allocated by cola itself — classes `fresh`, and `view-of` / `loop-carried` /
+    `matmul-result` chains that end in `fresh` only), or
+  * the scanner ESTABLISHED a reason by analysis and emitted it as data (`Site.reason`, see `Heap.Reason`):
+    the programs / counts it carries are checked here (`Reason.holds`) — every caller-side slice of a
+    private helper or of the backend primitive ends in `call [arg] …` and obeys the discipline, every
+    store to an owned field stores a locally allocated object, a write-only attribute has 0 reads, or
+  * it is listed below under a NAMED CLAUSE: a recorded defect, not an exemption by argument.
+
+  Round 2: the former prose allow-list (14 entries) is gone.  13 of its rows now carry a checked reason
+  (12) or are accepted by the discipline itself (1: `WrapMeta.__call__`, whose `new_obj` the scanner now
+  follows through `tree_unflatten` to `object.__new__`).  The remaining row, `Identity.to`
+  (`self.device = device`), has NO valid reason — the attribute `device` is read all over the library, and
+  the old prose reason ("the NumPy backend has the single device None, so the store never changes the
+  value") is false: `Identity((4,4), float64).to('cpu')` changes the receiver's `device` from `None` to
+  `'cpu'`.  It is the named clause `identity-to-mutates-receiver`.
 -/
 import ColaVerif.Model.Heap
 
@@ -19,39 +29,46 @@ structure Allow where
   target : String
   reason : String
 
+/-- rows accepted under a NAMED CLAUSE (a recorded / provisional finding of the check, reproduced by the
+    harness on a concrete input), never by an argument in prose -/
 def allowList : List Allow := [
-  { file := "backends/np_fns.py", func := "update_array", target := "array",
-    reason := "the in-place primitive itself (`array[slices] = update`); every CALL of update_array is a site of its own in the table, with the provenance of the array passed" },
-  { file := "ops/operator_base.py", func := "LinearOperator.__setattr__", target := "self.__class__._dynamic",
-    reason := "the class-level attribute registry: written on the first assignment of a name per class, never revised; modelled by Model/Registry.lean (verdict_is_first, verdict_fixed) — its history dependence is the clause first-instance-representative" },
-  { file := "annotations.py", func := "WrapMeta.__call__", target := "new_obj.annotations",
-    reason := "`new_obj` is the copy made one line above by tree_unflatten(tree_flatten(obj)) (object.__new__ + setattr); `.annotations` is assigned a NEW set `obj.annotations | {self}`; obj is not touched" },
   { file := "ops/operators.py", func := "Identity.to", target := "self.device",
-    reason := "`self.device = device`: Identity.to returns the receiver after storing the device; the NumPy backend has the single device None, so the store never changes the value (checked by the byte/attribute comparison of the correspondence)" },
-  { file := "linalg/algorithm_base.py", func := "IterativeOperatorWInfo._matmat", target := "self.info",
-    reason := "`self.info`: the log (iterations, residuals, timing) of the last iterative solve; not part of the represented matrix, the annotations, shape or dtype; `info` is static aux data of flatten" },
-  { file := "linalg/unary/unary.py", func := "LanczosUnary._matmat", target := "self.kwargs",
-    reason := "`self.kwargs.pop('start_vector')`: kwargs is the dict the constructor call built from `**alg.__dict__` (a fresh dict, not the caller's Algorithm object); the popped entry is never read (the start vector is the operand V)" },
-  { file := "linalg/unary/unary.py", func := "ArnoldiUnary._matmat", target := "self.kwargs",
-    reason := "as LanczosUnary._matmat: pop on the constructor-built kwargs dict" },
-  { file := "linalg/unary/unary.py", func := "LanczosUnary._matmat", target := "self.info",
-    reason := "`self.info.update(info)`: log of the last Lanczos run, created as `{}` by the constructor" },
-  { file := "linalg/unary/unary.py", func := "ArnoldiUnary._matmat", target := "self.info",
-    reason := "as LanczosUnary._matmat: log of the last Arnoldi run" },
-  { file := "linalg/decompositions/lanczos.py", func := "do_gram", target := "new_vec",
-    reason := "parameter of a private helper; its only caller chain is do_double_gram <- lanczos_fact.body_fun, which passes `new_vec`, the site lanczos.py lanczos_fact.body_fun `new_vec -= aux` of this table (matmul-result of a view of the loop-carried V allocated by init_lanczos: accepted by the discipline)" },
-  { file := "linalg/inverse/gmres.py", func := "apply_givens_fwd", target := "vec",
-    reason := "parameter of a private helper; its only caller gmres_fwd passes `e1`, allocated two lines earlier by xnp.zeros (site gmres.py gmres_fwd `e1` of this table)" },
-  { file := "utils/torch_tqdm.py", func := "update_pbar", target := "info",
-    reason := "progress-bar bookkeeping on the `info` dict created as `{}` inside while_loop_winfo (its only callers, newcond/new_while, pass that dict); reached only with pbar=True" },
-  { file := "utils/torch_tqdm.py", func := "update_pbar", target := "info['progval']",
-    reason := "as above" },
-  { file := "utils/torch_tqdm.py", func := "update_pbar", target := "info['pbar']",
-    reason := "as above (tqdm bar update)" }
+    reason := "clause identity-to-mutates-receiver: `Identity.to(device)` stores the device into the RECEIVER and returns it (every other kind returns a new operator through flatten/unflatten); witness `I = Identity((4, 4), float64); I.to('cpu')` changes `I.device` from None to 'cpu'" }
 ]
 
-def Site.allowed (s : Site) : Bool :=
+/-- the row is one of the named-clause rows -/
+def Site.byClause (s : Site) : Bool :=
   allowList.any (fun a => a.file == s.file && a.func == s.func && a.target == s.target)
+
+/-- the emitted reason, CHECKED: programs obey the discipline, counts are zero -/
+def Reason.holds : Reason → Bool
+  | .none => false
+  | .privateHelper cs => !cs.isEmpty && cs.all writesOnlyFresh
+  | .primitive cs => !cs.isEmpty && cs.all writesOnlyFresh
+  | .ownedField ds => !ds.isEmpty && ds.all writesOnlyFresh
+  | .writeOnlyField n => n == 0
+  | .classLevel => true
+
+/-- the last instruction of a caller-side slice is the interprocedural edge -/
+def endsInCall (p : Prog) : Bool :=
+  match p.getLast? with
+  | some (.call ws _ _) => !ws.isEmpty
+  | _ => false
+
+def endsInWrite (p : Prog) : Bool :=
+  match p.getLast? with
+  | some (.write _) => true
+  | _ => false
+
+/-- shape of the emitted programs: caller slices end in `call [arg] …`, field-definition slices in `write` -/
+def Reason.wellFormed : Reason → Bool
+  | .privateHelper cs => cs.all endsInCall
+  | .primitive cs => cs.all endsInCall
+  | .ownedField ds => ds.all endsInWrite
+  | _ => true
+
+/-- the row needs more than its own slice: a CHECKED reason, or the named clause -/
+def Site.allowed (s : Site) : Bool := s.byClause || (s.reason.holds && s.reason.wellFormed)
 
 /-- the acceptance rule -/
 def Site.ok (s : Site) : Bool := s.allowed || writesOnlyFresh s.prog
@@ -60,10 +77,34 @@ def Site.ok (s : Site) : Bool := s.allowed || writesOnlyFresh s.prog
 def Site.inScope (s : Site) : Bool := s.scope == Scope.library
 
 /-- the provenance class printed in the table is consistent with the acceptance rule: whatever is
-    classified `param` or `unknown` is rejected by the discipline (so it needs the allow-list) -/
+    classified `param` or `unknown` is rejected by the discipline (so it needs a checked reason) -/
 def Site.classConsistent (s : Site) : Bool :=
   match s.cls with
   | .param | .unknown => !writesOnlyFresh s.prog
   | _ => writesOnlyFresh s.prog
+
+/-- the programs a reason carries -/
+def Reason.progs : Reason → List Prog
+  | .privateHelper cs => cs
+  | .primitive cs => cs
+  | .ownedField ds => ds
+  | _ => []
+
+/-- a reason that holds carries only programs that obey the discipline -/
+theorem reason_progs_fresh (r : Reason) (h : r.holds = true) : ∀ p ∈ r.progs, writesOnlyFresh p = true := by
+  intro p hp
+  cases r with
+  | none => cases hp
+  | privateHelper cs =>
+    simp only [Reason.holds, Bool.and_eq_true, List.all_eq_true] at h
+    exact h.2 p hp
+  | primitive cs =>
+    simp only [Reason.holds, Bool.and_eq_true, List.all_eq_true] at h
+    exact h.2 p hp
+  | ownedField ds =>
+    simp only [Reason.holds, Bool.and_eq_true, List.all_eq_true] at h
+    exact h.2 p hp
+  | writeOnlyField n => cases hp
+  | classLevel => cases hp
 
 end ColaVerif.Heap
